@@ -4,7 +4,7 @@ from symx import logic as L
 from .world import World
 from .program import Program, show, Crash, Boom
 from .common import Driver, veq, exc_name
-from .skeletons import skeleton, U7, KINDS_SMALL
+from .skeletons import skeleton, U7, UN3, KINDS_SMALL
 from .mutate import mutate
 
 LEVEL = 'fault_enumeration'
@@ -38,6 +38,10 @@ def families(tier):
                                   'modes': ['ok', 'raise_after'], 'mut_paths': ['o/d', 'o/d/g']}, 'weight': 2},
         {'name': 'A8', 'params': {'hist': 'BF', 'kinds': ['is_dir']}},
     ]
+    q.append({'name': 'S1', 'params': {'hist': 'F'}, 'weight': 1})
+    q.append({'name': 'S1', 'params': {'hist': 'BF'}, 'weight': 1})
+    q.append({'name': 'N3', 'params': {'hist': 'BF', 'universe': UN3, 'kinds': ['is_dir'], 'roles': ['o'],
+                                     'bf_modes': ['ok', 'raise_after']}, 'weight': 3})
     if tier == 'quick':
         return q
     return q + [
@@ -116,7 +120,7 @@ def harness(eng, fam, P):
             if step == 'B':
                 nb += 1
                 impl, ref = d.build(prog)
-                d.check_same('C02.prefix', (fam, 'build%d' % nb))
+                d.guard_same('prefix')
                 desc.append('B->' + impl[0])
             elif step == 'M':
                 desc.append('M%s' % (mutate(eng, w, str(si), P.get('mut_kinds', ['none', 'delete', 'write', 'mkdir', 'rmtree', 'file2dir', 'dir2file']),
@@ -133,7 +137,7 @@ def harness(eng, fam, P):
                 sig = (fam, hist)
                 if impl[0] != 'exc':
                     # the crash point was not reached (function served from the cache or caught): an ordinary build
-                    d.check_same('C02.nofail', sig)
+                    d.guard_same('nofail')
                     eng.note('crash-not-reached')
                     return
                 eng.note('nontrivial:crash-fired')
